@@ -100,6 +100,7 @@ const (
 	OpFldId // Int-valued
 	// Int
 	OpIntConst
+	OpIntLt
 )
 
 var opSMT = map[Op]string{
@@ -109,7 +110,7 @@ var opSMT = map[Op]string{
 	OpBNot: "bvnot", OpNeg: "bvneg", OpShl: "bvshl", OpLShr: "bvlshr", OpAShr: "bvashr",
 	OpULt: "bvult", OpULe: "bvule", OpSLt: "bvslt", OpSLe: "bvsle", OpConcat: "concat",
 	OpIsIdx: "(_ is Idx)", OpIsFld: "(_ is Fld)", OpIdxBase: "ib", OpIdxIndex: "ii",
-	OpFldBase: "fb", OpFldId: "fi",
+	OpFldBase: "fb", OpFldId: "fi", OpIntLt: "<",
 }
 
 type Term struct {
@@ -1457,4 +1458,17 @@ func (c *Ctx) Skolemize(t *Term) *Term {
 		}
 	}
 	return t
+}
+
+// NotGhost states that address a is not itself a ghost pseudo-field (negative field id).
+func (c *Ctx) NotGhost(a *Term) *Term {
+	switch a.Op {
+	case OpFld:
+		return c.Bool(a.K >= 0)
+	case OpIdx, OpObj, OpNil:
+		return c.True
+	}
+	fi := c.mk(&Term{Op: OpFldId, S: SInt, Args: []*Term{a}})
+	lt := c.mk(&Term{Op: OpIntLt, S: SBool, Args: []*Term{fi, c.IntConst(0)}})
+	return c.Not(c.And(c.IsFld(a), lt))
 }
